@@ -337,12 +337,18 @@ P = [
 # behaviour-preserving refactors made by sub-agents (DESIGN 8.5b): every property must stay silent on each. The
 # property named here is the one whose thorough-tier self-test re-analyses the refactor in memory.
 for (rid, prop) in [("R01", "C16"), ("R02", "C10"), ("R03", "C09"), ("R04", "C12"), ("R05", "C05"), ("R06", "C07"),
-                    ("R07", "C20"), ("R08", "C15"), ("R09", "C14"), ("R10", "C17"), ("R11", "C18"), ("R12", "C19")]:
+                    ("R07", "C20"), ("R08", "C15"), ("R09", "C14"), ("R10", "C17"), ("R11", "C18"), ("R12", "C19"),
+                    ("R13", "C04"), ("R14", "C12"), ("R15", "C06"), ("R16", "C08"), ("R17", "C11"), ("R18", "C17"),
+                    ("R19", "C15"), ("R20", "C09"), ("R22", "C13"), ("R23", "C18")]:
     P.append((rid, prop, "", f"/verif/refactors/{rid}/patch.diff"))
+# faithful, but of a shape the engines cannot follow (DESIGN 8.6): heap-carried request record (R21), table of
+# predicate function values (R24) — expected outcome: undecided, never a violation
+for (rid, prop) in [("R21", "C10"), ("R24", "C19")]:
+    P.append((rid, prop, "~undecided", f"/verif/refactors/{rid}/patch.diff"))
 # "refactor of a seed" (DESIGN 8.5c): a confirmed seed composed with a behaviour-preserving refactoring that an agent
 # made of the seeded tree without knowing about the seed; the bug survives (the seed's demo still fails) and the
 # property's check must still fire.
-RS = [('C01-a4', 'D1'), ('C02-a2', 'L2-sub'), ('C03-a4', 'D3'), ('C04-a4', 'T-price-dur'), ('C05-a3', 'T-aliaskey'), ('C06-a2', 'T-refund-class'), ('C07-a2', 'G-rmv'), ('C08-a2', 'T-claim'), ('C09-a2', 'G-store-upd'), ('C10-a4', 'G-renew'), ('C11-a3', 'T-sched-shard'), ('C12-a2', 'T-replace'), ('C13-a3', 'CAP-sched-delete'), ('C14-a1', 'T-couple'), ('C15-a4', 'G-distinct'), ('C16-a4', 'T-persist'), ('C17-a3', 'G-bind'), ('C18-a4', 'E6-all'), ('C19-a2', 'G-fish'), ('C20-a3', 'G-promote')]
+RS = [('C01-a4', 'D1'), ('C02-a2', 'T-couple'), ('C03-a4', 'D3'), ('C04-a4', 'T-price-dur'), ('C05-a3', 'T-aliaskey'), ('C06-a2', 'T-refund-class'), ('C07-a2', 'G-rmv'), ('C08-a2', 'T-claim'), ('C09-a2', 'G-store-upd'), ('C10-a4', 'G-renew'), ('C11-a3', 'T-sched-shard'), ('C12-a2', 'T-replace'), ('C13-a3', 'CAP-sched-delete'), ('C14-a1', 'T-couple'), ('C15-a4', 'G-distinct'), ('C16-a4', 'T-persist'), ('C17-a3', 'G-bind'), ('C18-a4', 'E6-all'), ('C19-a2', 'G-fish'), ('C20-a3', 'G-share-ratio')]
 for (sid, rule) in RS:
     P.append(("RS-" + sid, sid.split("-")[0], rule, f"/verif/refactored_seeds/{sid}/combined.diff"))
 # round r1: seeds made on a refactored tree (patch.diff = refactor + seed relative to the pinned tree)
@@ -499,11 +505,15 @@ def main():
         os.makedirs(vm, exist_ok=True)
         shutil.copy("/verif/known_findings.json", vm + "/known_findings.json")
         # controls (behaviour-preserving edits) must leave EVERY property's check silent, not only the named one
-        parg = "all" if rule == "" else prop
+        parg = "all" if rule in ("", "~undecided") else prop
         out = sh(f"/verif/bin/saocheck -p {parg} -repo {REPO} -verif {vm}")
         fired = [l for l in out.stdout.splitlines() if l.startswith("violation:")]
         und = [l for l in out.stdout.splitlines() if l.startswith("UNDECIDED")]
-        if rule == "":
+        if rule == "~undecided":
+            # a faithful refactor of a shape the engines cannot follow (documented limit): no VIOLATION may be
+            # raised; "not decided" (exit 2) is the expected, honest outcome
+            status = "OK-silent" if (not fired and out.returncode in (0, 2)) else "FALSE-ALARM"
+        elif rule == "":
             status = "OK-silent" if out.returncode == 0 else "FALSE-ALARM"
         else:
             hit = [l for l in fired if rule in l]
